@@ -18,6 +18,14 @@ def str_and_bytes_agree(doc):
     return a == b
 
 
+def script_blocks_are_skipped(open_name, close_name, attrs):
+    """anchors inside a script block (tag name in any letter case) are not yielded, those around it are"""
+    doc = ('<a href="http://x.fr/first">1</a><' + open_name + attrs + '>document.write(\'<a href="http://in.fr/">i</a>\');</'
+           + close_name + '><a href="/out">o</a>')
+    exp = ["http://x.fr/first", "/out"]
+    return list(urls_from_html(doc)) == exp and list(urls_from_html(doc.encode("utf-8"))) == exp
+
+
 def hrefs_are_stripped(doc):
     for u in urls_from_html(doc):
         if u != u.strip():
